@@ -93,6 +93,19 @@ static const char *E_NOREPLY = "org.freedesktop.DBus.Error.NoReply";
 static const char *E_RULE_NOT_FOUND = "org.freedesktop.DBus.Error.MatchRuleNotFound";
 static const char *E_RULE_INVALID = "org.freedesktop.DBus.Error.MatchRuleInvalid";
 
+// A message the bus itself originates is subject only to the recipient's receive rules; a recipient
+// that has not completed Hello has no policy yet and can be told anything by the bus.
+bool Model::bus_may_deliver(int r, const wire::Msg &m) {
+  if (r < 0 || (size_t)r >= conns.size()) return false;
+  if (!can_receive || !conns[(size_t)r].hello) return true;
+  return can_receive(-1, m, r, r, m.reply_serial() != 0);
+}
+
+void Model::emit_from_bus(int r, Exp e, bool fl) {
+  if (!bus_may_deliver(r, e.m)) { probes["bus_message_refused_by_receive_policy"]++; return; }
+  if (fl) emit_floating(r, std::move(e)); else emit(r, std::move(e));
+}
+
 void Model::emit_floating(int r, Exp e) {
   if (r < 0 || (size_t)r >= conns.size()) return;
   if (!conns[(size_t)r].alive || conns[(size_t)r].unchecked) return;
@@ -146,22 +159,34 @@ void Model::route(int sender, const wire::Msg &m, int addressed) {
       if (p.caller == addressed && p.callee == sender && p.serial == m.reply_serial()) requested = true;
   if (addressed >= 0) {
     bool ok = true;
-    if (sender >= 0 && can_send && !can_send(sender, m, addressed, requested)) ok = false;
+    if (is_reply && requested && sender >= 0) {
+      // The slot is used up by the attempt: "at most one reply per call gets through" even if policy
+      // then refuses this one (the documents do not say the call becomes answerable again).
+      for (size_t i = 0; i < pending.size(); i++)
+        if (pending[i].caller == addressed && pending[i].callee == sender && pending[i].serial == m.reply_serial()) {
+          pending.erase(pending.begin() + (long)i);
+          break;
+        }
+    }
+    if (sender >= 0 && can_send && !can_send(sender, m, addressed, addressed, requested)) ok = false;
     if (ok && can_receive && !can_receive(sender, m, addressed, addressed, requested)) ok = false;
     if (ok && m.unix_fds() > 0 && !conns[(size_t)addressed].fdpass) ok = false;
     if (!ok) {
       probes["unicast_refused"]++;
-      if (sender >= 0 && m.type == wire::T_CALL) {
+      if (sender >= 0) {
+        // a denied method call earns AccessDenied; for other types only "delivered to no one" is
+        // required, an AccessDenied error back to the sender is admitted
         Exp e;
         e.from_bus = true;
         e.m = wire::Msg::error(1, m.serial, U(sender), "org.freedesktop.DBus.Error.AccessDenied");
         e.m.set_field(wire::F_SENDER, wire::Value::string(BUS));
         e.ignore_body = true;
-        e.optional = (m.flags & wire::FL_NO_REPLY_EXPECTED) != 0;
+        e.optional = m.type != wire::T_CALL || (m.flags & wire::FL_NO_REPLY_EXPECTED) != 0;
+        if (is_reply) probes[requested ? "requested_reply_refused" : "unrequested_reply_refused"]++;
         if (m.unix_fds() > 0 && !conns[(size_t)addressed].fdpass) e.any_error_name = true;
         e.what = "error for refused call";
         e.prop = "C06";
-        emit(sender, e);
+        emit_from_bus(sender, e);
       }
       return;
     }
@@ -183,7 +208,7 @@ void Model::route(int sender, const wire::Msg &m, int addressed) {
         e.what = dup ? "error: serial of an outstanding call reused" : "error: pending-reply limit";
         e.prop = dup ? "C09" : "C13";
         probes[dup ? "serial_reuse_refused" : "limit_replies_hit"]++;
-        emit(sender, e);
+        emit_from_bus(sender, e);
         return;
       }
     }
@@ -200,13 +225,7 @@ void Model::route(int sender, const wire::Msg &m, int addressed) {
         p.deadline_us = lim.reply_timeout_ms < 0 ? -1 : now_us + lim.reply_timeout_ms * 1000;
         pending.push_back(p);
       }
-      if (is_reply && requested) {
-        for (size_t i = 0; i < pending.size(); i++)
-          if (pending[i].caller == addressed && pending[i].callee == sender && pending[i].serial == m.reply_serial()) {
-            pending.erase(pending.begin() + (long)i);
-            break;
-          }
-      }
+
     }
   }
   route_matches(sender, m, addressed, requested);
@@ -220,7 +239,7 @@ void Model::route_matches(int sender, const wire::Msg &m, int addressed, bool re
     if (!k.alive || !k.hello || k.monitor || (int)rc == addressed) continue;
     bool eavesdropping = m.has_field(wire::F_DESTINATION);
     if (!rule_matches_any((int)rc, m, sender, addressed, eavesdropping)) continue;
-    if (sender >= 0 && can_send && !can_send(sender, m, (int)rc, requested)) continue;
+    if (sender >= 0 && can_send && !can_send(sender, m, (int)rc, addressed, requested)) continue;
     if (can_receive && !can_receive(sender, m, (int)rc, addressed, requested)) continue;
     if (m.unix_fds() > 0 && !k.fdpass) continue;
     Exp e;
@@ -254,8 +273,7 @@ void Model::name_signal(int c, const char *member, const std::string &name) {
   e.what = member;
   e.prop = "C04";
   e.pre = true;
-  if (can_receive && !can_receive(-1, s, c, c, false)) return;
-  emit(c, e);
+  emit_from_bus(c, e);
 }
 
 void Model::reply_ok(int c, const wire::Msg &call, std::vector<wire::Value> body, bool name_set) {
@@ -268,8 +286,7 @@ void Model::reply_ok(int c, const wire::Msg &call, std::vector<wire::Value> body
   e.last = true;
   e.what = "reply to " + call.member();
   e.prop = prop_of_member(call.member());
-  if (can_receive && !can_receive(-1, e.m, c, c, true)) return;
-  emit(c, e);
+  emit_from_bus(c, e);
 }
 
 void Model::reply_err(int c, const wire::Msg &call, const std::string &name, std::vector<std::string> any_of) {
@@ -285,8 +302,7 @@ void Model::reply_err(int c, const wire::Msg &call, const std::string &name, std
   e.what = "error reply to " + call.member();
   e.any_destination = !conns[(size_t)c].hello;
   e.prop = name == E_LIMITS ? "C13" : name == E_ACCESS ? "C06" : prop_of_member(call.member());
-  if (can_receive && !can_receive(-1, e.m, c, c, true)) return;
-  emit(c, e);
+  emit_from_bus(c, e);
 }
 
 void Model::release_entry(int c, const std::string &name, bool from_disconnect) {
@@ -342,7 +358,7 @@ void Model::disconnect(int c) {
       e.what = "NoReply because callee disconnected";
       e.prop = "C09";
       // produced by the bus's expiry machinery, not by the disconnect itself: position in the stream is free
-      if (!can_receive || can_receive(-1, e.m, pending[i].caller, pending[i].caller, true)) emit_floating(pending[i].caller, e);
+      emit_from_bus(pending[i].caller, e, true);
       probes["noreply_on_disconnect"]++;
       pending.erase(pending.begin() + (long)i);
     } else if (pending[i].caller == c) {
@@ -375,6 +391,32 @@ void Model::disconnect(int c) {
   k.rule_doomed.clear();
   exp[(size_t)c].clear();
   floating[(size_t)c].clear();
+}
+
+void Model::reply_expired(int caller, int callee, uint32_t serial) {
+  event++;
+  for (size_t i = 0; i < pending.size(); i++) {
+    if (pending[i].caller != caller || pending[i].callee != callee || pending[i].serial != serial) continue;
+    PendingReply p = pending[i];
+    pending.erase(pending.begin() + (long)i);
+    probes["reply_slot_expired"]++;
+    Exp e;
+    e.from_bus = true;
+    e.m = wire::Msg::error(1, serial, U(caller), E_NOREPLY);
+    e.m.set_field(wire::F_SENDER, wire::Value::string(BUS));
+    e.ignore_body = true;
+    e.what = "NoReply because the reply timeout elapsed";
+    e.prop = "C09";
+    emit_from_bus(caller, e);
+    return;
+  }
+  // not found: the slot went away with its callee's disconnect (NoReply already predicted, floating)
+}
+
+std::vector<PendingReply> Model::overdue() const {
+  std::vector<PendingReply> v;
+  for (auto &p : pending) if (p.deadline_us >= 0 && p.deadline_us < now_us) v.push_back(p);
+  return v;
 }
 
 void Model::resolve_rule_choice(int conn, const std::vector<size_t> &idx, bool dropped) {
@@ -434,7 +476,7 @@ void Model::driver(int c, const wire::Msg &m) {
     e.m.set_field(wire::F_SENDER, wire::Value::string(BUS));
     e.what = "Hello reply";
     e.prop = "C03";
-    if (!can_receive || can_receive(-1, e.m, c, c, true)) emit(c, e);
+    emit_from_bus(c, e);
     return;
   }
 
@@ -597,6 +639,13 @@ void Model::driver(int c, const wire::Msg &m) {
       return;
     }
     if (at_limit) { reply_err(c, m, E_LIMITS); probes["limit_rules_hit"]++; return; }
+    if (r.eavesdrop && k.uid != 0 && k.uid != bus_uid) {
+      // "Match rules can also be used for eavesdropping, if the security policy of the message bus allows it":
+      // the reference bus lets only root and its own user add eavesdropping rules
+      reply_err(c, m, E_ACCESS);
+      probes["eavesdrop_rule_refused"]++;
+      return;
+    }
     k.rules.push_back(r);
     k.rule_texts.push_back(m.body[0].str);
     k.rule_doomed.push_back(false);
@@ -632,7 +681,7 @@ void Model::driver(int c, const wire::Msg &m) {
       a.finding = "C07-removematch-ack-before-error";
       a.what = "spurious success reply to a failing RemoveMatch";
       a.prop = "C07";
-      emit(c, a);
+      emit_from_bus(c, a);
     }
     reply_err(c, m, E_RULE_NOT_FOUND);
     probes["rmmatch_notfound"]++;
@@ -647,6 +696,7 @@ void Model::driver(int c, const wire::Msg &m) {
     reply_ok(c, m, {wire::Value::u32(member == "GetConnectionUnixUser" ? conns[(size_t)o].uid : conns[(size_t)o].pid)});
     return;
   }
+  if (member == "GetId" && !m.body.empty()) { reply_err(c, m, ""); return; }
   if (member == "GetId") {
     // value not predictable by the model; presence only
     Exp e;
@@ -657,7 +707,7 @@ void Model::driver(int c, const wire::Msg &m) {
     e.last = true;
     e.what = "reply to GetId";
     e.prop = "C04";
-    emit(c, e);
+    emit_from_bus(c, e);
     return;
   }
   // anything else: exactly one error (name not asserted)
@@ -706,7 +756,8 @@ void Model::process(int c, const wire::Msg &orig) {
   m.set_field(wire::F_SENDER, wire::Value::string(U(c)));
 
   if (to_bus) {
-    if (can_send && !can_send(c, m, -1, false)) {
+    // a connection that has not completed Hello has no policy yet: its Hello is always let through
+    if (k.hello && can_send && !can_send(c, m, -1, -1, false)) {
       probes["send_to_bus_denied"]++;
       if (m.type == wire::T_CALL) reply_err(c, m, E_ACCESS);
       return;
@@ -750,7 +801,7 @@ void Model::process(int c, const wire::Msg &orig) {
       e.optional = m.type != wire::T_CALL || (m.flags & wire::FL_NO_REPLY_EXPECTED) != 0;
       e.what = "error: destination has no owner";
       e.prop = "C05";
-      emit(c, e);
+      emit_from_bus(c, e);
     }
     // never delivered to an addressee; eavesdroppers may see it
     route_matches(c, m, -1, false);
